@@ -188,6 +188,7 @@ func runC15(c *harness.Ctx, idx int) {
 			return
 		}
 		c.Count("decodes", 1)
+		c.Count("_evaluations", 1)
 		if dr.err == nil {
 			accepted++
 			if dr.n != len(msg) {
